@@ -474,6 +474,9 @@ package whispertool
 //@                 ==> forall i :: 0 <= i && i < len(result0) ==>
 //@                     result0[i].Time == slotT(w, archiveID, ringAt(idxOf(archOf(w, archiveID), baseOf(w, archiveID), fromInterval), i, countOf(w, archiveID)))
 //@                     && bits(result0[i].Value) == slotB(w, archiveID, ringAt(idxOf(archOf(w, archiveID), baseOf(w, archiveID), fromInterval), i, countOf(w, archiveID)))
+//@ loop (*Whisper).FetchFromArchive#0
+//@   invariant bounds: 0 <= i && i <= len(values) && values.arr > old(top)
+//@   invariant nan: forall j :: 0 <= j && j < i ==> bits(values[j]) == 9221120237041090561
 //@ loop (*Whisper).fetchRawPoints#0
 //@   invariant cnt: 0 <= i && i <= len(points) && off == fromOffset + 12 * i && off <= untilOffset
 //@   invariant read: forall j :: 0 <= j && j < i ==> points[j].Time == slotTime(frow(w.fileBuf), fromOffset + 12 * j) && bits(points[j].Value) == slotBits(frow(w.fileBuf), fromOffset + 12 * j)
@@ -550,6 +553,13 @@ package whispertool
 //@                     && result0.untilTime == ite(alignUp(winLo(w, k, from, now), stepOf(w, k)) == alignUp(winHi(until, now), stepOf(w, k)),
 //@                                                alignUp(winHi(until, now), stepOf(w, k)) + stepOf(w, k), alignUp(winHi(until, now), stepOf(w, k)))
 //@                     && len(result0.values) == (result0.untilTime - result0.fromTime) / stepOf(w, k)
+//@   ensures[C01] never_written: forall k :: !badArgs(w, arhiveID, from, until) && from <= now && chosen(w, arhiveID, k, from, now) && until >= now - retOf(w, k) && result1 == nil
+//@                 && baseOf(w, k) == 0 ==> forall i :: 0 <= i && i < len(result0.values) ==> bits(result0.values[i]) == 9221120237041090561
+//@   ensures[C01] content: forall k :: !badArgs(w, arhiveID, from, until) && from <= now && chosen(w, arhiveID, k, from, now) && until >= now - retOf(w, k) && result1 == nil
+//@                 && baseOf(w, k) != 0 && alignedWin(w, k, result0.fromTime, result0.untilTime)
+//@                 ==> forall i :: 0 <= i && i < len(result0.values) ==>
+//@                     bits(result0.values[i]) == ite(slotT(w, k, ringAt(idxOf(archOf(w, k), baseOf(w, k), result0.fromTime), i, countOf(w, k))) == result0.fromTime + i * stepOf(w, k),
+//@                                                    slotB(w, k, ringAt(idxOf(archOf(w, k), baseOf(w, k), result0.fromTime), i, countOf(w, k))), 9221120237041090561)
 
 //@ lemma div_mono(s int, a int, b int)
 //@   props C04 C01
@@ -578,3 +588,21 @@ package whispertool
 //@   use mod_unique(a + n * s, s, a fdiv s + n, a fmod s)
 //@   use div_mono(s, b, a + n * s)
 //@   ensures bound: b fdiv s - a fdiv s <= n
+
+//@ spec wellShapedTS(ts *TimeSeries) bool = ts.step > 0 && len(ts.values) * ts.step <= 2147483647 && ts.fromTime + len(ts.values) * ts.step <= 4294967295
+//@ lemma mul_mono(i int, n int, s int)
+//@   props C04 C18
+//@   requires 0 <= i && i <= n && s >= 0
+//@   ensures mono: i * s <= n * s && 0 <= i * s
+
+//@ func (*TimeSeries).Points
+//@   props C04 C18
+//@   ensures absent: ts == nil ==> len(result) == 0
+//@   ensures length: ts != nil ==> len(result) == len(ts.values) && fresh(result)
+//@   ensures values: ts != nil ==> forall i :: 0 <= i && i < len(ts.values) ==> bits(result[i].Value) == bits(ts.values[i])
+//@   ensures times: ts != nil && wellShapedTS(ts) ==> forall i :: 0 <= i && i < len(ts.values) ==> result[i].Time == ts.fromTime + i * ts.step
+//@ loop (*TimeSeries).Points#0
+//@   invariant bounds: 0 <= i && i <= len(ts.values) && len(pts) == len(ts.values) && pts.arr > old(top)
+//@   invariant values: forall k :: 0 <= k && k < i ==> bits(pts[k].Value) == bits(ts.values[k])
+//@   invariant times: wellShapedTS(ts) ==> forall k :: 0 <= k && k < i ==> pts[k].Time == ts.fromTime + k * ts.step
+//@   use mul_mono(i, len(ts.values), ts.step) when wellShapedTS(ts)
